@@ -106,7 +106,15 @@ def main():
                     out.write("PCASE p-%d-%d f%d %s %s -\n" % (a.seed, npar, f["idx"], f["fl"], f["pol"]))
                     out.write("P %s\nA %s\nB %s\nEND\n" % (call(f, x), call(f, x), call(f, x)))
                     npar += 1
-    json.dump(dict(schedules=len(cases) + npar, enumeration=total + npar, overlapping_lookups=npar, op_pairs=hist), sys.stdout)
+    # free-running threads (real parallelism): quiescent consistency and exact statistics
+    nstress = 0
+    with open(a.out, "a") as out:
+        for f in fns:
+            if f["ret"] == 0 and nstress < (12 if a.count > 0 else 40):
+                out.write("STRESS st-%d-%d f%d 6 250 %d %d\nEND\n" % (a.seed, nstress, f["idx"], r.below(1 << 30), f["limit"] or 3))
+                nstress += 1
+    json.dump(dict(schedules=len(cases) + npar + nstress, enumeration=total + npar + nstress, overlapping_lookups=npar,
+                   stress_runs=nstress, op_pairs=hist), sys.stdout)
 
 
 if __name__ == "__main__":
